@@ -246,7 +246,7 @@ func checkFILETIMETime(tk *big.Int, variant int, sub int64, boundary bool) {
 	}
 	t = t.Add(time.Duration(sub))
 	cs := map[string]any{"ticks": tk.String(), "time": t.Format(time.RFC3339Nano), "zone_variant": variant % 6, "subtick_ns": sub}
-	reg := region(tk, d1601)
+	reg := regionSub(tk, d1601, sub)
 	guard("FILETIME.NewFILETIMEFromTime", cs, func() {
 		ft := ds.NewFILETIMEFromTime(t)
 		got := new(big.Int).SetUint64(uint64(ft.DwHighDateTime)<<32 | uint64(ft.DwLowDateTime))
@@ -558,7 +558,7 @@ func checkDateTimeFromTime(tk *big.Int, variant int, sub int64, boundary bool) {
 	}
 	t = t.Add(time.Duration(sub))
 	cs := map[string]any{"ticks": tk.String(), "time": t.Format(time.RFC3339Nano), "zone_variant": variant % 6, "subtick_ns": sub}
-	reg := region(tk, d1601)
+	reg := regionSub(tk, d1601, sub)
 	ver := kckey.KeyCredentialVersion{Value: kcVersions[variant%len(kcVersions)]}
 	src := kcSources[(variant/4)%2]
 	guard("keycredential.ConvertToBinaryTime", cs, func() {
@@ -689,7 +689,7 @@ func checkUUIDFromTime(tk *big.Int, variant int, sub int64, boundary bool) {
 	}
 	t = t.Add(time.Duration(sub))
 	cs := map[string]any{"timestamp": tk.String(), "time": t.Format(time.RFC3339Nano), "zone_variant": variant % 6, "subtick_ns": sub}
-	reg := region(tk, d1582)
+	reg := regionSub(tk, d1582, sub)
 	judge := func(entry string, got uint64) {
 		g := new(big.Int).SetUint64(got)
 		r.Eval(1)
